@@ -1,4 +1,5 @@
-"""Plain-numpy mesh adjacency used as the oracle for C07.  Nothing here imports autoarray or scipy.
+"""Plain-numpy mesh adjacency used as the oracle for C07.  Nothing here imports autoarray; scipy is only used by
+`scipy_triangulation` (vertex sets with coincident vertices, where "the" triangulation is whatever qhull returns).
 
 * rectangular mesh of shape (rows, cols), pixels indexed row-major: 4-connectivity.
 * Delaunay vertex set: brute-force empty-circumcircle test over all vertex triples (n <= ~40).  Because a
@@ -210,3 +211,44 @@ def simplices_defects(points, simplices, band=BAND):
     if abs(total - hull) > 1e-9 * hull:
         out.append("simplex areas sum to %.12g, hull area %.12g (normalised units)" % (total, hull))
     return out, edges, undecided
+
+
+# ---------------------------------------------------------------------------------------------
+# vertex sets with (nearly) coincident vertices: qhull drops one of each coincident pair from the triangulation, the
+# dropped vertex then has no neighbours at all.  The reference is scipy's own triangulation of the points, computed here
+# (not read from the library).
+# ---------------------------------------------------------------------------------------------
+def scipy_triangulation(points):
+    """Returns (edges, absent, simplices): unordered vertex pairs sharing an edge of scipy.spatial.Delaunay(points),
+    the vertices that appear in no simplex (dropped by qhull, listed in `coplanar`), and the simplices."""
+    import scipy.spatial
+    p = np.asarray(points, dtype=float)
+    d = scipy.spatial.Delaunay(p)
+    simplices = np.asarray(d.simplices, dtype=int)
+    edges = set()
+    for i, j, k in simplices:
+        for u, v in ((i, j), (i, k), (j, k)):
+            edges.add((int(min(u, v)), int(max(u, v))))
+    used = set(int(v) for v in simplices.ravel())
+    absent = sorted(set(range(len(p))) - used)
+    return edges, absent, simplices
+
+
+def nearest_other_distance(points, idx):
+    """Distance from points[idx] to the nearest other point, relative to the extent of the set."""
+    p = np.asarray(points, dtype=float)
+    ext = float(np.ptp(p, axis=0).max()) or 1.0
+    d = np.sqrt(((p - p[idx]) ** 2).sum(-1))
+    d[idx] = np.inf
+    return float(d.min() / ext)
+
+
+def simplices_area_defect(points, simplices):
+    """None if the simplex areas sum to the hull area within 1e-9, else a message."""
+    p = _normalised(points)
+    s = np.asarray(simplices, dtype=int).reshape(-1, 3)
+    total = float(np.abs(_orient(p[s[:, 0]], p[s[:, 1]], p[s[:, 2]])).sum() / 2.0)
+    hull = hull_area(p)
+    if abs(total - hull) > 1e-9 * hull:
+        return "simplex areas sum to %.12g, hull area %.12g (normalised units)" % (total, hull)
+    return None
